@@ -128,6 +128,16 @@ def catalogue_shapes(tier="quick"):
     add("holes_neg_only", lambda r: runs_to_values([(-30, -28), (-20, -20), (-9, -7)]) if signed(r) else None)
     add("holes_both_sides_of_0", lambda r: runs_to_values([(-6, -5), (-1, 1), (7, 9)]) if signed(r) else None)
     add("holes_small_for_inline", lambda r: [1, 3, 4])
+    # exact spans (max - min) around the widths of machine words and narrow integers: an
+    # implementation that switches strategy on the span (bitset, table, ...) is off by one right there
+    for sp in (31, 32, 33, 63, 64, 65, 127, 128, 129, 255, 256, 257):
+        def span_shape(r, sp=sp):
+            lo, hi, _, _ = repr_bounds(r)
+            base = -3 if signed(r) and sp < 200 else 0
+            if base + sp > hi:
+                return None
+            return [base, base + 1, base + 3, base + sp // 2, base + sp - 2, base + sp - 1, base + sp]
+        add("holes_span_%d" % sp, span_shape)
     swide0 = ["i64", "i128", "isize"]
     add("holes_span_2_63_up", lambda r: [-2, -1, I64_MAX - 1, I64_MAX] if r in swide0 else None, swide0)
     add("holes_span_2_63_down", lambda r: [I64_MIN + 1, I64_MIN + 2, 1, 2] if r in swide0 else None, swide0)
@@ -571,8 +581,10 @@ def plan_corpus(seed, tier, shard=0):
         ok = [r for r in cands if fn(r) is not None]
         if not ok:
             continue
-        # every shape on 2 reprs (thorough: 4), rotating through the list
+        # every shape on 2 reprs (thorough: 4), rotating through the list; the span family on 1 (2)
         k = 2 if tier == "quick" else 4
+        if sname.startswith("holes_span_") and sname[11:].isdigit():
+            k = 1 if tier == "quick" else 2
         chosen = []
         for i in range(len(ok)):
             r = ok[(rot + i * 5) % len(ok)]
